@@ -109,3 +109,12 @@ M("c04-cpu-max-break", "C04", "io/hilbert.py", "        for j in range(cpu_min[i
 M("c04-predicate-or", "C04", "io/loader.py", "                            sel = np.prod(", "                            sel = (np.sum if len(conditions) > 3 else np.prod)(", "with three or more user predicates they are ORed")
 M("c04-bound-key-last", "C04", "io/hilbert.py", "        bound_key.append(int(float(content[starting_line + ncpu - 1].split()[2])))", "        bound_key.append(int(float(content[starting_line + ncpu - 1].split()[1])) + 1)", "upper bound of the last domain read from the wrong column")
 M("c04-cpumax-gt", "C04", "io/hilbert.py", "                bound_key[impi + 1] >= bounding_max[i]", "                bound_key[impi + 1] > bounding_max[i]", "a cube whose key range ends exactly on a bound key gets no last CPU")
+
+# ---------------------------------------------------------------- C15
+M("c15-unfix-cpu-list", "C15", "io/amr.py", "        # The CPU pre-selection belongs to one load() call only\n        self.cpu_list = None\n", "", "stale cpu_list again (the original defect)")
+M("c15-ncells-not-reset", "C15", "io/loader.py", '            meta["ncells"] = 0\n            lmax = meta["lmax"]', '            lmax = meta["lmax"]', "cell count accumulates over calls")
+M("c15-nparticles-not-reset", "C15", "io/loader.py", '            meta["nparticles"] = 0\n            print(', '            print(', "particle count accumulates over calls")
+M("c15-pieces-reused", "C15", "io/reader.py", '                "pieces": {},\n', '                "pieces": self.variables[key]["pieces"] if key in self.variables and key == "density" else {},\n', "density pieces of the previous call are kept")
+M("c15-lmax-sticky", "C15", "io/loader.py", '        meta["lmax"] = meta["levelmax"]\n', '        meta["lmax"] = meta.get("lmax", meta["levelmax"])\n', "a level cap of an earlier call stays in force")
+M("c15-variables-sticky", "C15", "io/reader.py", '        read = {key: False for key in descriptor}\n', '        read = {key: (self.variables[key]["read"] if key in self.variables else False) for key in descriptor}\n', "variables read by an earlier call stay switched on for list selections")
+M("c15-early-clear", "C15", "io/ramses.py", "        groups = self.loader.load(*args, meta=self.meta, units=self.units, **kwargs)", "        if kwargs.get('select') is None or isinstance(kwargs.get('select'), dict):\n            self.groups.pop('part', None)  # free memory before re-loading\n        groups = self.loader.load(*args, meta=self.meta, units=self.units, **kwargs)", "an earlier particle group is dropped before the new load: lost when the call is interrupted or does not load particles")
